@@ -151,7 +151,7 @@ func (pkg EEDPackage) WriteTo(ch BytesChannel) error {
 	// x servername
 	// x procname
 	// 2 linenr
-	length := 11 + len(pkg.SQLState) + len(pkg.Msg) + len(pkg.ServerName) + len(pkg.ProcName)
+	length := 16 + len(pkg.SQLState) + len(pkg.Msg) + len(pkg.ServerName) + len(pkg.ProcName)
 
 	if err := ch.WriteUint16(uint16(length)); err != nil {
 		return fmt.Errorf("failed to write length: %w", err)
